@@ -464,6 +464,24 @@ def abstract_mul(t):
     return r
 
 
+def abstract_all(terms):
+    """abstract a list of formulas and add the facts umul(a, a) >= 0 for every square that occurs (true of real
+    multiplication, so 'unsat' of the result is still sound)"""
+    out = [abstract_mul(t) for t in terms]
+    seen, sq, todo = set(), [], list(out)
+    while todo:
+        x = todo.pop()
+        i = x.get_id()
+        if i in seen:
+            continue
+        seen.add(i)
+        if z3.is_app(x):
+            if x.decl().name() == "umul" and x.num_args() == 2 and x.arg(0).eq(x.arg(1)):
+                sq.append(x >= 0)
+            todo.extend(x.children())
+    return out + sq
+
+
 def _has_nl_real_mul(t, seen=None):
     seen = set() if seen is None else seen
     stack = [t]
@@ -503,7 +521,7 @@ def valid(e, extra=()):
     if not _has_nl_real_mul(e) and any(_has_nl_real_mul(h) for h in hy):
         # a linear question under non-linear hypotheses: ask it with multiplication abstracted ('unsat' is sound, and
         # this helper treats everything else as "not valid" anyway) -- never the slow NRA query
-        r, _ = check_sat([abstract_mul(h) for h in hy] + [goal], RLIMIT // 8)
+        r, _ = check_sat(abstract_all(hy + [goal]), RLIMIT // 8)
     else:
         r, _ = check_sat(hy + [goal])
     res = (r == "unsat")
@@ -745,7 +763,7 @@ def refute_or_prove(e, extra=(), rlimit=None):
         for alt in (False, True):
             _ABS_ALT[0] = alt
             try:
-                r, _ = check_sat([abstract_mul(h) for h in hy] + [abstract_mul(goal)])
+                r, _ = check_sat(abstract_all(hy + [goal]))
             finally:
                 _ABS_ALT[0] = False
             if r == "unsat":
@@ -766,7 +784,7 @@ def feasible(extra=()):
     question is asked with multiplication abstracted (unsat there is unsat here), never as an NRA query"""
     hy = CTX.all_hyps() + list(extra)
     if any(_has_nl_real_mul(h) for h in hy):
-        r, _ = check_sat([abstract_mul(h) for h in hy], RLIMIT // 8)
+        r, _ = check_sat(abstract_all(hy), RLIMIT // 8)
     else:
         r, _ = check_sat(hy)
     return r != "unsat"
